@@ -16,6 +16,10 @@
   containers, comparison of pointer-typed values, a missing oracle answer); it is an
   explicit outcome, never a value.
 
+  `hasCtx` (no polling at all under `context.Background()`) is the oracle `fun _ => false`.
+  The model follows the code WITH the fix of D7/D7b: exhaustion saves `pc = len(codes)`, and both
+  `invalidPathIterError` branches of `opiter` push `emptyIter{}` like the `iteratorError` branch.
+
   Not modelled: Go `int` overflow of `offset`/`label`/`expdepth` (unbounded `Int` here) and
   the partially updated state left behind by a panic (after `panic` nothing is claimed).
 -/
